@@ -72,6 +72,7 @@ def run_check(ctx):
     st = coq.proof_stage(ctx, 'Props.C12', VO, FILES)
     finish_proof(ctx, st)
     scale = 1 if ctx.tier == 'quick' else 40
+    if getattr(ctx, 'changed', None) and ctx.tier == 'quick': scale = 5
     lines = shared_script(ctx, scale)
     flines = [l for l in gen_lines(ctx.rng.fork('f10'), 'min', 3 * scale, 'C10') + gen_lines(ctx.rng.fork('f11'), 'min', 3 * scale, 'C11')]
     try:
